@@ -901,6 +901,14 @@ func (g *Gen) systematicBurst() []*Step {
 	if fam("key") || g.Prof.Binary {
 		kinds = append(kinds, "like-names")
 	}
+	for _, f := range []string{"set", "hash", "zset"} {
+		if fam(f) && !g.Prof.Scan {
+			kinds = append(kinds, "big-"+f)
+		}
+	}
+	if g.Prof.Binary || fam("set") || fam("zset") || fam("list") {
+		kinds = append(kinds, "empty-member")
+	}
 	if len(kinds) == 0 {
 		return nil
 	}
@@ -960,6 +968,51 @@ func (g *Gen) systematicBurst() []*Step {
 			ops = append(ops, KExpireAt(k, past), probes[g.pick(len(probes))])
 		}
 		return steps(ops...)
+	case strings.HasPrefix(kind, "big-"):
+		// one call that adds several hundred elements, one call that removes most of them (and
+		// names some that are not there): counts and lengths must add up
+		n := 520 + g.pick(200)
+		var vals []Value
+		var fields []string
+		var kvs []KV
+		var zvs []ZV
+		for i := 0; i < n; i++ {
+			name := fmt.Sprintf("e%03d", i)
+			vals = append(vals, VStr(name))
+			fields = append(fields, name)
+			kvs = append(kvs, KV{K: name, V: VStr("v")})
+			zvs = append(zvs, ZV{V: VStr(name), Score: float64(i % 7)})
+		}
+		cut := 20 + g.pick(40)
+		gone := append(append([]Value{}, vals[:n-cut]...), VStr("absent-1"), VStr("absent-2"))
+		goneF := append(append([]string{}, fields[:n-cut]...), "absent-1")
+		if g.chance(0.5) {
+			// ... the absent ones last, so that the last part of the call removes nothing
+			for i := 0; i < 510; i++ {
+				gone = append(gone, VStr(fmt.Sprintf("never-%d", i)))
+				goneF = append(goneF, fmt.Sprintf("never-%d", i))
+			}
+		}
+		switch kind {
+		case "big-set":
+			return steps(KDelete(k), EAdd(k, vals...), ELen(k), EDelete(k, gone...), ELen(k), EItems(k))
+		case "big-hash":
+			return steps(KDelete(k), HSetMany(k, kvs...), HLen(k), HDelete(k, goneF...), HLen(k), HFields(k))
+		default:
+			return steps(KDelete(k), ZAddMany(k, zvs...), ZLen(k), ZDelete(k, gone...), ZLen(k), ZRangeRank(k, 0, -1, false))
+		}
+	case kind == "empty-member":
+		// the empty byte string as an element, spelled "" and as a nil slice, in every role
+		switch g.pick(4) {
+		case 0:
+			return steps(KDelete(k), EAdd(k, VStr(""), VStr("a")), EExists(k, VNil()), EExists(k, VStr("")), EExists(k, VBytes([]byte{})), EDelete(k, VNil()), EExists(k, VStr("")), EAdd(k, VNil()), EItems(k), EMove(k, k2, VNil()), EItems(k2))
+		case 1:
+			return steps(KDelete(k), ZAdd(k, VStr(""), 1), ZAdd(k, VStr("a"), 2), ZGetScore(k, VNil()), ZGetRank(k, VNil(), false), ZIncr(k, VNil(), 2), ZDelete(k, VNil()), ZGetScore(k, VStr("")), ZAdd(k, VNil(), 3), ZRangeRank(k, 0, -1, false))
+		case 2:
+			return steps(KDelete(k), LPushBack(k, VStr("")), LPushBack(k, VStr("a")), LPushBack(k, VNil()), LDelete(k, VNil()), LRange(k, 0, -1), LPushFront(k, VNil()), LInsertBefore(k, VNil(), VStr("x")), LInsertAfter(k, VStr(""), VNil()), LSet(k, 0, VNil()), LRange(k, 0, -1))
+		default:
+			return steps(KDelete(k), SSet(k, VNil()), SGet(k), HSet(k2, "", VNil()), HGet(k2, ""), HSetNX(k2, "", VStr("x")), HDelete(k2, ""), SSet(k, VStr("")), SIncr(k, 1))
+		}
 	case kind == "default-page":
 		// more elements than the default page holds (10), iterated with the default page size
 		fm := []byte{'E', 'H', 'Z'}[g.pick(3)]
